@@ -50,6 +50,54 @@ type c20UU struct {
 	ok bool
 }
 
+// embedded (anonymous) fields: a struct value, a named scalar, a pointer, an interface
+type C20ID int64
+type c20Base struct {
+	a int32
+	s string
+}
+type c20EmbS struct {
+	c20Base
+	n int8
+}
+type c20EmbI struct {
+	C20ID
+	n int8
+}
+type c20EmbP struct {
+	*c20Base
+	n int8
+}
+type c20EmbF struct {
+	c20Reader
+	n int8
+}
+type c20EmbAll struct {
+	n int8
+	C20ID
+	*c20Base
+	c20Reader
+	c20EmbS
+	u []uint16
+}
+
+const (
+	c20KID   = 32 // the named scalar C20ID (values are written as int64 scalars)
+	c20KBase = 33
+	c20KEmbS = 34
+	c20KEmbI = 35
+	c20KEmbP = 36
+	c20KEmbF = 37
+	c20KEmbA = 38
+)
+
+var c20Named = map[int]reflect.Type{
+	c20KID: reflect.TypeOf(C20ID(0)), c20KBase: reflect.TypeOf(c20Base{}), c20KEmbS: reflect.TypeOf(c20EmbS{}),
+	c20KEmbI: reflect.TypeOf(c20EmbI{}), c20KEmbP: reflect.TypeOf(c20EmbP{}), c20KEmbF: reflect.TypeOf(c20EmbF{}),
+	c20KEmbA: reflect.TypeOf(c20EmbAll{}),
+}
+var c20EmbKinds = []int{c20KBase, c20KEmbS, c20KEmbI, c20KEmbP, c20KEmbF, c20KEmbA}
+
 const (
 	c20KMy = 27 // type codes >= 27 occur in type descriptions only
 	c20KAB = 29
@@ -110,6 +158,9 @@ func c20Type(t V) reflect.Type {
 		return reflect.TypeOf(c20RI{})
 	case c20KUU:
 		return reflect.TypeOf(c20UU{})
+	}
+	if nt, ok := c20Named[k]; ok {
+		return nt
 	}
 	c20Fatal("unknown type code %d", k)
 	return nil
@@ -542,6 +593,11 @@ func c20TypeText(t reflect.Type) string {
 	case reflect.TypeOf(c20UU{}):
 		return L(Int(c20KUU))
 	}
+	for code, nt := range c20Named {
+		if nt == t {
+			return L(Int(code))
+		}
+	}
 	k := int(t.Kind())
 	switch {
 	case k <= 16 || k == 24:
@@ -799,6 +855,18 @@ func (t *c20T) fields() []*c20T {
 		return []*c20T{{K: 20, W: 1}}
 	case c20KUU:
 		return []*c20T{c20S(7), c20S(12), c20S(1)}
+	case c20KBase:
+		return []*c20T{c20S(5), c20S(24)}
+	case c20KEmbS:
+		return []*c20T{c20S(c20KBase), c20S(3)}
+	case c20KEmbI:
+		return []*c20T{c20S(c20KID), c20S(3)}
+	case c20KEmbP:
+		return []*c20T{{K: 22, Elem: c20S(c20KBase)}, c20S(3)}
+	case c20KEmbF:
+		return []*c20T{{K: 20, W: 1}, c20S(3)}
+	case c20KEmbA:
+		return []*c20T{c20S(3), c20S(c20KID), {K: 22, Elem: c20S(c20KBase)}, {K: 20, W: 1}, c20S(c20KEmbS), {K: 23, Elem: c20S(9)}}
 	case c20KMy:
 		my := &c20T{K: c20KMy}
 		return []*c20T{
@@ -829,7 +897,7 @@ func (t *c20T) Text() string {
 	return L(Int(t.K))
 }
 
-func (t *c20T) isStruct() bool { return t.K == 25 || t.K >= 27 }
+func (t *c20T) isStruct() bool { return t.K == 25 || (t.K >= 27 && t.K != c20KID) }
 
 // number of distinct values c20Key can make of a comparable type
 func (t *c20T) keyCap() int {
@@ -843,7 +911,7 @@ func (t *c20T) keyCap() int {
 			return 1 // all pointers to zero-size objects may be equal (runtime.zerobase)
 		}
 		return 1 << 20
-	case t.K <= 16 || t.K == 24 || t.K == 20:
+	case t.K <= 16 || t.K == 24 || t.K == 20 || t.K == c20KID:
 		return 1 << 20
 	case t.K == 17:
 		if t.N == 0 {
@@ -919,8 +987,8 @@ func c20RandType(r *Rand, depth int, comparable bool) *c20T {
 			}
 			return t
 		case 19:
-			k := r.Pick(c20KMy, c20KAB, c20KRI, c20KUU)
-			if comparable && k == c20KMy {
+			k := r.Pick(c20KMy, c20KAB, c20KRI, c20KUU, c20KID, c20KBase, c20KEmbS, c20KEmbI, c20KEmbP, c20KEmbF, c20KEmbA)
+			if comparable && (k == c20KMy || k == c20KEmbA) {
 				continue
 			}
 			return c20S(k)
@@ -980,6 +1048,8 @@ func (c *c20Gen) val(t *c20T, depth int) string {
 	c.budget--
 	out := c.budget <= 0 || depth <= 0
 	switch {
+	case t.K == c20KID:
+		return L("6", Int(r.Pick(0, 1, 2, 100, 127)))
 	case t.K <= 16:
 		return L(Int(t.K), Int(r.Pick(0, 1, 2, 100, 127)))
 	case t.K == 24:
@@ -1072,6 +1142,8 @@ func (c *c20Gen) dyn(w, depth int, comparable bool, i int) string {
 func (c *c20Gen) key(t *c20T, i, depth int) string {
 	c.budget--
 	switch {
+	case t.K == c20KID:
+		return L("6", Int(i))
 	case t.K == 1:
 		return L("1", Int(i&1))
 	case t.K <= 16:
@@ -1736,9 +1808,21 @@ func genC20(g *Gen) {
 	}
 	g.Exhaust = append(g.Exhaust, fmt.Sprintf("arrays of non-scalars: []([n]X), [2][n]X, [][1][n]X for n in 1..3, X over the %d container shapes x %d leaf types", len(all), len(inner)))
 
+	// (3g) embedded (anonymous) fields: a struct value, a named scalar, a pointer, an interface, all of them
+	for _, k := range c20EmbKinds {
+		for i := 0; i < 8; i++ {
+			gen.budget = 200
+			gen.reset(0)
+			t := c20S(k)
+			wrap := []*c20T{{K: 22, Elem: t}, {K: 23, Elem: t}, {K: 17, Elem: t, N: 2}, {K: 25, Fields: []*c20T{c20S(1), t}}}[i%4]
+			emit(gen.val(wrap, 6), "exh-embedded")
+		}
+	}
+	g.Exhaust = append(g.Exhaust, "embedded fields: structs embedding a struct value / a named scalar / a pointer / an interface / all four, behind a pointer, in a slice, an array and a struct")
+
 	// (4) hand-declared types: unexported fields, a recursive type, a method-carrying interface
 	for k := 0; k < g.N(40, 400); k++ {
-		t := c20S(g.R.Pick(c20KMy, c20KMy, c20KAB, c20KRI, c20KUU))
+		t := c20S(g.R.Pick(c20KMy, c20KMy, c20KAB, c20KRI, c20KUU, c20KEmbS, c20KEmbI, c20KEmbP, c20KEmbF, c20KEmbA, c20KEmbA))
 		gen.budget = g.R.Pick(10, 40, 200)
 		gen.reset(g.R.Pick(0, 2, 3))
 		wrap := &c20T{K: g.R.Pick(22, 23), Elem: t}
